@@ -10,8 +10,8 @@ R10a on the non-failing path of StopEngineCommand._run and RestartEngineCommand.
 R10b Tag.on_stop ends a simulation (stop_simulation under `simulated`); every subclass of Tag that
      overrides on_stop calls super().on_stop() on all paths.
 R10c EventEmitter.emit_on_stop calls on_stop on every listener.
-R10d Stop can only cancel what it can see: cancel_commands walks the *executing requests*, so every live UOD command
-     instance must belong to an executing request or be finalized. In CommandManager._execute_uod_command every path
+R10d Stop can only cancel what it can see: as long as cancel_commands walks only the *executing requests* (no sweep, R10g), every live
+     UOD command instance must belong to an executing request or be finalized. In CommandManager._execute_uod_command every path
      from the acquisition of the instance (create_command / get_command) to a *raising* exit finalizes the instance
      (_finalize_command, _cancel_command with its default finalize=True, or finalize()) - a failed command whose request
      is dropped while its instance stays registered survives Stop and Restart and swallows the next request of that name;
@@ -51,6 +51,23 @@ from ..cfg import facts_at
 
 EXPLANATION = __doc__
 IMPL = "openpectus.engine.internal_commands_impl"
+
+
+def _stop_sweeps_instances(prog):
+    """(ok, cancel_commands FuncInfo, loops): when finalizing, cancel_commands walks uod.command_instances and finalizes what it finds."""
+    ccm = prog.func("openpectus.engine.command_manager:CommandManager.cancel_commands")
+    gcc = cfg_of(ccm)
+    loops = [n for n in gcc.nodes if n.kind == "for" and "command_instances" in norm(n.ast.iter)]
+    fin_ok = False
+    for lp in loops:
+        tnames = {x.id for x in ast.walk(lp.ast.target) if isinstance(x, ast.Name)}
+        for st in ast.walk(lp.ast):
+            if isinstance(st, ast.Call) and call_attr(st) in ("finalize", "_finalize_command"):
+                recv = st.func.value if call_attr(st) == "finalize" else (st.args[1] if len(st.args) > 1 else None)
+                if recv is not None and any(isinstance(x, ast.Name) and x.id in tnames for x in ast.walk(recv)):
+                    if any("finalize" in norm(e) and pol for e, pol in gcc.conditions_at(lp)):
+                        fin_ok = True
+    return fin_ok, ccm, loops
 
 
 def _order_check(ctx, f, names: list[str], start=None):
@@ -236,6 +253,10 @@ def run(ctx) -> None:
         p = gx.search([(n.id, "")], lambda x: x.id == gx.raise_exit.id, blocked=finalizes, blocked_edge=already_final, follow_exc=True)
         if p is None:
             ctx.ok("R10d", inst)
+        elif _stop_sweeps_instances(prog)[0]:
+            # Stop/Restart finalize every registered instance, with or without a request (R10g): an instance left behind by a failing
+            # path no longer survives the end of the run. (That it is left unfinalized until then is C11's business: R11c.)
+            ctx.ok("R10d", inst + " - or by the sweep of cancel_commands when the run ends (R10g)", {"rule": "R10d", "by": "R10g sweep"})
         else:
             ctx.fail("R10d", xu, n.ast, inst, "a path on which the command fails leaves _execute_uod_command by raising without "
                      "finalizing the instance: it stays in uod.command_instances while its request is dropped, so Stop/Restart "
@@ -328,21 +349,9 @@ def run(ctx) -> None:
 
     # ---- R10g
     ctx.rule("R10g", "Stop finalizes UOD command instances that have no executing request")
-    ccm = prog.func("openpectus.engine.command_manager:CommandManager.cancel_commands")
+    fin_ok, ccm, loops = _stop_sweeps_instances(prog)
     ctx.analysed(ccm)
-    gcc = cfg_of(ccm)
     inst = "cancel_commands(finalize=True): every instance left in uod.command_instances is finalized"
-    loops = [n for n in gcc.nodes if n.kind == "for" and "command_instances" in norm(n.ast.iter)]
-    fin_ok = False
-    for lp in loops:
-        tnames = {x.id for x in ast.walk(lp.ast.target) if isinstance(x, ast.Name)}
-        for st in ast.walk(lp.ast):
-            if isinstance(st, ast.Call) and call_attr(st) in ("finalize", "_finalize_command"):
-                recv = st.func.value if call_attr(st) == "finalize" else (st.args[1] if len(st.args) > 1 else None)
-                if recv is not None and any(isinstance(x, ast.Name) and x.id in tnames for x in ast.walk(recv)):
-                    # under the finalize switch
-                    if any("finalize" in norm(e) and pol for e, pol in gcc.conditions_at(lp)):
-                        fin_ok = True
     if fin_ok:
         ctx.ok("R10g", inst)
     else:
